@@ -35,7 +35,7 @@ BUDGET = {
 @st.composite
 def strategy_(draw, tier):
     big = tier == "thorough"
-    case = draw(gen.model_cases(max_nodes=7 if big else 5, p_opts=3))
+    case = draw(gen.model_cases(max_nodes=7 if big else 5, p_opts=3, p_iso=3))
     # separately labelled class: an isolated node (both source and sink) in edge mode - single-node routes (known finding F19e)
     kw = case["kw"]
     if draw(st.integers(0, 14)) == 0 and kw.get("flow_attr_origin", kw.get("cover_type", "edge")) == "edge":
